@@ -306,6 +306,10 @@ def worker(spec, out):
                 bad = [x for x in leaves(v, []) if kind(x) == k0 and ((k0 == "decimal" and not x.is_finite()) or (k0 == "complex" and not (math.isfinite(x.real) and math.isfinite(x.imag))))]
                 if bad:
                     k0 = k0 + "-nonfinite"
+            if k0 == "regex" and d[1] == "value":
+                # the printer runs regex patterns through the unicode_escape codec (pinned by the repository's own tests)
+                if any(kind(x) == "regex" and x.pattern.encode("unicode_escape").decode("ascii") != x.pattern for x in leaves(v, [])):
+                    k0 = "regex-unicode-escaped"
             fail(k0, d[1], {"reread": repr(back)[:200]})
             return
         try:
